@@ -96,6 +96,14 @@ def items(tier, seed):
         for dt in _dts(tier):
             n = n_inst if dt < 3600 else 48
             out.append(("instant", st.isoformat(), dt, n))
+    # the CONFIGURED span vs the run: (a) the span ends exactly on the last step of the run, so the last boundary event
+    # sits on the stop epoch; (b) the span is shorter than the run (legal: the caller of propagateTo decides how far
+    # to go), so half of the events lie past stop_timestamp - all of them are still "inside the simulated span"
+    for st in _starts(tier, seed)[:: (3 if tier == "quick" else 1)]:
+        for dt in _dts(tier)[:: (2 if tier == "quick" else 1)]:
+            n = 12 if tier == "quick" else 30
+            out.append(("instant", st.isoformat(), dt, n, n))
+            out.append(("instant", st.isoformat(), dt, n, n // 2))
     est_starts = _starts(tier, seed)[: (4 if tier == "quick" else 12)] + _starts(tier, seed)[-1:]
     for st in est_starts:
         for dt in ([60, 300] if tier == "quick" else [30, 60, 300]):
@@ -110,6 +118,7 @@ def bounds(tier, seed):
         "steps": _dts(tier),
         "run_length_instant": 40 if tier == "quick" else 200,
         "run_length_estimation": 10 if tier == "quick" else 24,
+        "configured_span_vs_run": ["run + 1 step", "equal to the run (last event on the stop epoch)", "half the run"],
         "event_offsets_seconds": ["k*dt", "k*dt-1", "k*dt+1", "k*dt-dt/2", "k*dt+0.3", "k*dt-0.3", "k*dt+0.5", "k*dt+1.7"],
     }
 
@@ -263,14 +272,15 @@ def _reference_truth(x0, impulses, t_end):
 
 
 def _run_instant(res, item):
-    _, iso, dt, n = item
+    _, iso, dt, n = item[:4]
+    span = item[4] if len(item) > 4 else n + 1  # configured span in steps (default: one step longer than the run)
     st = datetime.fromisoformat(iso)
     evs = _instant_events(st, dt, n)
     x0 = {10001: scen.LEO_A, 10002: scen.MEO_A, 10003: scen.GEO_A}
     tg = [scen.target_eci(t, *x0[t]) for t in (10001, 10002, 10003)]
     engines = [scen.engine(1, tg[:2], [scen.ground_sensor(20001, 10.0, 20.0)]),
                scen.engine(2, tg[2:], [scen.ground_sensor(20002, -15.0, 100.0)])]
-    cfg = scen.config(st, n + 1, engines, physics=dt, truth_only=True, events=[_event_cfg(e, st) for e in evs])
+    cfg = scen.config(st, span, engines, physics=dt, truth_only=True, events=[_event_cfg(e, st) for e in evs])
     del _LOG[:]
     sc = scen.build(cfg)
     membership = []
@@ -285,7 +295,7 @@ def _run_instant(res, item):
         membership.append((set(sc.target_agents), set(sc.sensor_agents),
                            {e: set(sc.tasking_engines[e].target_list) for e in (1, 2)},
                            {e: set(sc.tasking_engines[e].sensor_list) for e in (1, 2)}))
-    base_case = {"family": "instant", "start": iso, "start_second": st.second, "dt": dt}
+    base_case = {"family": "instant", "start": iso, "start_second": st.second, "dt": dt, "configured_span_steps": span, "run_steps": n}
     if err:
         res.violate("instant/run", base_case, signature="C01/instant/run_error", observed=err, item=item)
     steps_run = len(membership)
